@@ -69,6 +69,8 @@ def gen_cases(run):
     for k in ks:
         for d in (-1, 0, 1):
             ints += [2 ** k + d, -(2 ** k) + d]
+    for k in (21, 30, 100, 308, 309, 400):      # beyond every float / fixed-width conversion
+        ints += [10 ** k, -(10 ** k), 10 ** k + 1]
     cases = []
     for sc, v2l, l2v in SCALES:
         for x in ints:
@@ -142,6 +144,38 @@ def nonstring_oracle(run):
     return out
 
 
+def textshape_oracle(run):
+    """Only the exact label texts are labels (theorem unknown label refused:
+    every string that is not byte-for-byte a label of the scale).  Texts that a
+    lenient conversion (int(), strip(), casefold(), unicode normalisation)
+    would map onto a label must be refused like any other unknown text."""
+    cases = []
+    for sc, v2l, l2v in SCALES:
+        texts = set()
+        for l in SPEC_LABELS[sc]:
+            texts |= {l + "\n", l + "\t", "\t" + l, l + "\u00a0", "\u00a0" + l, l + "\x00", l.replace(" ", "\u00a0"),
+                      l.replace(" ", "  "), l.replace("-", "\u2013"), l.swapcase(), l.title(), l.casefold(),
+                      l.replace("i", "\u0131"), l.replace("/", " / "), l.replace(" / ", "/"), l + l}
+            if l.isdigit():
+                n = int(l)
+                texts |= {"+%d" % n, "0%d" % n, "%d.0" % n, "%d_0" % n, "%de0" % n, " %d " % n, "-%d" % n, "0x%x" % n,
+                          "".join(chr(0xFF10 + int(ch)) for ch in l), "".join(chr(0x0660 + int(ch)) for ch in l),
+                          "%d" % (n * 10), "%d%%" % (n * 10)}
+        for n in (0, 5, 10, 30, 50, 100):
+            texts |= {str(n), "+%d" % n, "%d.0" % n}
+        texts -= set(SPEC_LABELS[sc])
+        for t in sorted(texts):
+            cases.append({"scale": sc, "fn": l2v, "arg": t})
+    got = common.run_impl("c20_impl", cases, procs=1)
+    run.coverage["near_label_text_calls"] = len(cases)
+    out = []
+    for c, g in zip(cases, got):
+        if g != "ValueError":
+            out.append(Violation("%s(%r) is not a label of the scale (not the exact text) but gives %s instead of being refused"
+                                 % (c["fn"], c["arg"], g), {"kind": "nonstring", "case": c, "impl": g}))
+    return out
+
+
 def order_oracle(run, cases, spec):
     """The conversions are functions of their argument: the answers must not
     depend on what was asked before.  The small domain (-5..105 and every
@@ -181,7 +215,7 @@ def order_oracle(run, cases, spec):
 
 
 def check(run):
-    run.coverage["rule"] = ("every integer -1000..1100 and 2^k+-1 (k<=80) through each value_to_X, every scale label, "
+    run.coverage["rule"] = ("every integer -1000..1100, 2^k+-1 (k<=80) and +-10^k (k<=400) through each value_to_X, every scale label, "
                             "labels of other scales and one-edit mutants through each X_to_value; implementation vs "
                             "generated model vs specification table; a case is non-trivial unless the integer lies "
                             "outside -50..150 (plain refusal)")
@@ -224,6 +258,7 @@ def check(run):
     run.violations += oracle(cases, impl, spec)
     run.violations += order_oracle(run, cases, spec)
     run.violations += nonstring_oracle(run)
+    run.violations += textshape_oracle(run)
     run.coverage["exhaustive"] = True
     run.coverage["trusted_base"] += [
         "translators/tr_scales.py (fail-closed AST translator; validated each run by the sweep above)",
